@@ -1353,3 +1353,12 @@ Section Inv.
     eapply run_sound; [apply init_inv|exact H|exact Ht].
   Qed.
 End Inv.
+
+(* the whole parser of Model/GLR.v, Section Full: scanner of Model/Scan.v, ws/LAYOUT skipping,
+   CPython's set order *)
+Theorem glr_full_sound (c : pconf) (inp : pinput) (fuel : nat) (pos start : N) nodes root :
+  table_struct (pc_g c) (pc_tb c) start = true ->
+  glr_parse_full c inp fuel pos = GLRForest nodes root ->
+  forall t, unfolds (glr_forest nodes root) (pred (length (glr_forest nodes root))) t ->
+            wf_tree (pc_g c) t /\ root_sym (pc_g c) t = Some (NT start).
+Proof. intros Hts H. unfold glr_parse_full in H. eapply glr_sound; eassumption. Qed.
